@@ -136,6 +136,7 @@ def handle (line : String) : String :=
     match chunkCfg? with
     | some k => runDoerRequest k Generated.filterWrapPre Generated.filterWrapPost rest
     | none => "bad-op"
+  | "syncdest" :: rest => runSyncDestRequest rest
   | ["linktext", b] =>
     match unxBytes b with
     | some bytes => s!"read={(readLinkB bytes).render} written=x{hexOfBytes (writeLinkB '/' (readLinkB bytes))}"
